@@ -5,6 +5,10 @@
     scripted target + scripted bounce target; the recorded traces are validated
     against QueueTrace.tla; the property predicates (QueueObs.tla) are evaluated
     after every recorded event.
+    Variant (b): the real target.smtp / target.lmtp / remote-MX target against a scripted next hop.
+    Variant (c): SERIES of such behaviours through one queue over one downstream that keeps state between
+    messages (the connection pool of the real remote-MX target; a scripted target with all messages in the
+    spool at once) - every message of a series is its own trace for QueueTrace.tla (build_series).
 """
 import json
 import os
@@ -17,7 +21,7 @@ KEEP = {"Cfg", "QAccept", "TStart", "TAddRcpt", "TBody", "TBodyNA", "TCommit", "
 REPORT_PREDS = {"ReportNotWellFormed", "ReportReturnPathNotNull", "ReportNotToSender",
                 "ReportLacksOriginalHeader", "ReportUsesRewrittenAddress", "ReportStatusMismatch",
                 "ReportOmitsFailedRcpt", "ReportListsRcptTwice", "ReportAlthoughSuppressed",
-                "ReportAboutReport"}
+                "ReportAboutReport", "FailedRcptNotReported"}
 
 MC_CFG = """SPECIFICATION Spec
 CONSTANTS
@@ -27,6 +31,7 @@ CONSTANTS
   Devs = {%(devs)s}
   RwSets = %(rwsets)s
   Utf8Set = %(utf8set)s
+  EnhSet = %(enhset)s
   BounceStages = %(stages)s
   Gen = %(gen)s
 %(tail)s
@@ -40,6 +45,7 @@ CONSTANTS
   Devs = {%(devs)s}
   RwSets = {{}, {"r1"}, {"r1", "r2"}}
   Utf8Set = {TRUE, FALSE}
+  EnhSet = {TRUE, FALSE}
   BounceStages = {"ok", "start", "rcpt", "body", "commit"}
   Gen = FALSE
 CHECK_DEADLOCK FALSE
@@ -47,11 +53,11 @@ POSTCONDITION Post
 """
 
 
-DIMS_C01 = dict(rwsets="{{}}", utf8set="{FALSE}", stages='{"ok", "start"}')
+DIMS_C01 = dict(rwsets="{{}}", utf8set="{FALSE}", enhset="{TRUE}", stages='{"ok", "start"}')
 
 
 def cfg(rcpts, mts, maxlist, devs=(), gen=False, tail="", dims=None):
-    return MC_CFG % dict(dims or DIMS_C01, rcpts=", ".join('"%s"' % r for r in rcpts),
+    return MC_CFG % dict(dict({"enhset": "{TRUE}"}, **(dims or DIMS_C01)), rcpts=", ".join('"%s"' % r for r in rcpts),
                          mts=", ".join(str(m) for m in mts), maxlist=maxlist,
                          devs=", ".join('"%s"' % d for d in devs),
                          gen="TRUE" if gen else "FALSE", tail=tail)
@@ -94,6 +100,7 @@ CONSTANTS
   Devs = {}
   RwSets = {{}}
   Utf8Set = {FALSE}
+  EnhSet = {TRUE}
   BounceStages = {"ok", "start", "rcpt", "body", "commit"}
   Gen = FALSE
 CHECK_DEADLOCK FALSE
@@ -203,7 +210,7 @@ def run(ctx, replay):
     if replay and "repotest" in json.load(open(replay)):
         repo_test_traces(ctx, "C01", lambda v: v not in REPORT_PREDS)
         return
-    run_queue(ctx, replay, "C01", lambda v: v not in REPORT_PREDS, DIMS_C01, {"real": True})
+    run_queue(ctx, replay, "C01", lambda v: v not in REPORT_PREDS, DIMS_C01, {"real": True, "series": True})
     if not replay:
         n = repo_test_traces(ctx, "C01", lambda v: v not in REPORT_PREDS)
         ctx.cov["traces_validated_against_impl"] += n
@@ -226,6 +233,109 @@ def run(ctx, replay):
                                           "summary": [l for l in lines if "behaviours" in l or "done:" in l]}
 
 
+def build_series(ctx, pool, thorough):
+    """Variant (c) (harness/queuecheck/series_test.go): series of 2-3 complete behaviours of Queue.tla addressed to the
+    same mailboxes, run through ONE queue over ONE downstream.  Series-level: the queue's configuration (max_tries,
+    bounce pipeline) is shared, so members are drawn from one (mt, bounce) class.  remote: per-recipient plans whose
+    MAIL always succeeds (target.remote sends MAIL with the first RCPT).
+
+    Selection: what a downstream can carry from one transaction into the next is per-recipient, so a series is
+    abstracted to the pairs of CONSECUTIVE transactions (attempts, across message boundaries) it contains, each pair
+    projected on every recipient: (result of RCPT and of the body stage in the earlier one, the same in the later one).
+    Candidate series are drawn at random from the plans TLC printed and picked greedily so that as many distinct
+    combinations as possible are replayed (quick: a seeded part of them; thorough: practically all)."""
+    def txns(b, remote):
+        # (remote: RCPT has no unclassified result on the wire - the hop answers 4xx - and Commit has no SMTP counterpart)
+        out, cur = [], None
+        for h in b["hist"]:
+            if h["a"] == "TStart":
+                cur = {"rc": {}, "data": "none", "start": h.get("res", "ok")}
+                out.append(cur)
+            elif cur is None:
+                continue
+            elif h["a"] == "TAddRcpt":
+                cur["rc"][h["r"]] = "temp" if (remote and h["res"] == "unspec") else h["res"]
+            elif h["a"] == "TBody":
+                cur["data"] = h["res"]
+            elif h["a"] == "TBodyNA":
+                vals = sorted(set((h.get("st") or {}).values()))
+                cur["data"] = vals[0] if len(vals) == 1 else "mixed:" + ",".join(vals)
+            elif h["a"] == "TCommit" and h["res"] != "ok" and not remote:
+                cur["data"] = "commit-" + h["res"]
+        return out
+    tcache = {}
+    def txns_of(b, remote):
+        if (id(b), remote) not in tcache:
+            tcache[(id(b), remote)] = txns(b, remote)
+        return tcache[(id(b), remote)]
+    def combos(members, remote):
+        ts = [t for m in members for t in txns_of(m, remote)]
+        out = set()
+        for a, c in zip(ts, ts[1:]):
+            if remote and not (a["start"] == "ok" and a["data"] in ("ok", "none")):
+                continue      # the connection of the earlier transaction is not returned to the pool: nothing is carried over
+            for r in set(a["rc"]) | set(c["rc"]):
+                out.add((a["start"], a["rc"].get(r, "-"), a["data"], c["start"], c["rc"].get(r, "-"), c["data"]))
+        return out
+    classes = {}
+    for b in pool:
+        c = b["cfg"]
+        if c.get("rw") or c.get("chain") or len(set(c["list"])) < 2:
+            continue
+        classes.setdefault((c["mt"], c["bounce"]), []).append(b)
+    keys = sorted(classes)
+    if not keys:
+        return []
+    n_remote, n_scr = (600, 300) if thorough else (90, 24)
+    def member(b, sid, pos, utf8):
+        nb = json.loads(json.dumps({"cfg": b["cfg"], "hist": b["hist"]}))
+        nb["id"] = 3000000 + 10 * sid + pos
+        for f in ("restartFirst", "caseVar", "uniLocal", "uniForm", "senderForm", "errshape", "front", "idn", "enh", "errtext"):
+            nb["cfg"].pop(f, None)
+        nb["cfg"]["utf8"] = utf8
+        return nb
+    out = []
+    rclasses = {}
+    for remote, n in ((True, n_remote), (False, n_scr)):
+        cands = []
+        for _ in range(n * (6 if thorough else 25)):
+            key = keys[ctx.rng.randrange(len(keys))]
+            cand = classes[key]
+            if remote:
+                if key not in rclasses:
+                    rclasses[key] = [b for b in cand if b["cfg"]["partial"] and
+                                     all(h.get("res", "ok") == "ok" for h in b["hist"] if h["a"] == "TStart")]
+                cand = rclasses[key]
+                if not cand:
+                    continue
+            ms = [ctx.rng.choice(cand) for _ in range(ctx.rng.choice((2, 3, 3)))]
+            cands.append((key, ms, combos(ms, remote)))
+        seen = {}
+        depth = 3        # every combination is wanted in three different series (different other recipients / neighbours)
+        for _ in range(n):
+            if not cands:
+                break
+            # greedy: the candidate with the most combinations still wanted (ties: the earlier draw)
+            best = max(range(len(cands)), key=lambda i: (sum(1 for c in cands[i][2] if seen.get(c, 0) < depth), -i))
+            key, ms, cs = cands.pop(best)
+            for c in cs:
+                seen[c] = seen.get(c, 0) + 1
+            k = len(out)
+            scfg = {"fwd": "remote" if remote else "scripted", "mt": key[0], "bounce": key[1],
+                    "idn": k % 4 == 1, "enh": k % 5 != 2, "temp": "421" if k % 3 == 1 else "",
+                    "reuse": 2 if k % 4 == 3 else 0, "restart": (not remote) and k % 3 == 2}
+            out.append({"id": k + 1, "cfg": scfg,
+                        "members": [member(b, k, pos, (not scfg["idn"]) and (k + pos) % 4 == 3) for pos, b in enumerate(ms)]})
+        ctx.cov["series_%s_combinations" % ("remote" if remote else "scripted")] = len(seen)
+    return out
+
+
+def wk(n):
+    """TLC workers: n, capped by VERIF_TLC_WORKERS when the machine is shared."""
+    cap = int(os.environ.get("VERIF_TLC_WORKERS", "0") or 0)
+    return min(n, cap) if cap > 0 else n
+
+
 def run_queue(ctx, replay, pid, mine, dims, opts):
     """Shared by C01 and C18: `mine` selects the predicate names that decide this property,
     `dims` the report dimensions of the model, opts: {"known": fn(viol, behaviour, trace) -> (fid, what) | None,
@@ -234,10 +344,10 @@ def run_queue(ctx, replay, pid, mine, dims, opts):
     # ---- (T) exhaustive model checking of the design ----------------------
     if not replay:
         if thorough:
-            r = ctx.tlc_expect_ok("Queue", None, name="mc", workers=16, timeout=2400,
+            r = ctx.tlc_expect_ok("Queue", None, name="mc", workers=wk(16), timeout=2400, heap="8g",
                                   cfg_text=cfg(["r1", "r2", "r3"], [1, 2, 3], opts.get("maxlist_thorough", 3), tail=MC_TAIL, dims=dims))
         else:
-            r = ctx.tlc_expect_ok("Queue", None, name="mc", workers=8, timeout=600,
+            r = ctx.tlc_expect_ok("Queue", None, name="mc", workers=wk(8), timeout=600, heap="3g",
                                   cfg_text=cfg(["r1", "r2"], [1, 2, 3], 2, tail=MC_TAIL, dims=dims))
         ctx.cov["states"] = r["distinct"]
         ctx.cov["transitions"] = r["generated"]
@@ -245,7 +355,7 @@ def run_queue(ctx, replay, pid, mine, dims, opts):
         ctx.log("TLC exhaustive: %d distinct states, %d transitions, depth %d, %.1fs" % (
             r["distinct"], r["generated"], r["depth"], r["wall"]))
         # the as-is deviation must be found by the same invariants (non-vacuity)
-        ra = ctx.tlc("Queue", None, name="asis", workers=4, timeout=300,
+        ra = ctx.tlc("Queue", None, name="asis", workers=4, timeout=300, heap="2g",
                      cfg_text=cfg(["r1", "r2"], [2], 2, devs=["DupRcpt"],
                                   tail="VIEW View\nINVARIANTS NoViolation\n"))
         if ra["invariant"] != "NoViolation":
@@ -260,7 +370,7 @@ def run_queue(ctx, replay, pid, mine, dims, opts):
         behs[0]["id"] = 1
     else:
         behs = []
-        g = ctx.tlc("Queue", None, name="gen", workers=8, timeout=1800,
+        g = ctx.tlc("Queue", None, name="gen", workers=wk(8), timeout=1800, heap="6g" if thorough else "3g",
                     cfg_text=cfg(["r1", "r2"], [1, 2] if thorough else [2], 2, gen=True, tail=GEN_TAIL,
                                  dims=opts.get("gen_dims", dims)))
         if not g["ok"]:
@@ -291,7 +401,7 @@ def run_queue(ctx, replay, pid, mine, dims, opts):
                 behs += rest[:max(0, cap - len(behs))]
             ctx.cov["plan_shapes_total"] = len(sigs)
             n_sim = 6000 if thorough else 150
-        g2 = ctx.tlc("Queue", None, name="sim", workers=1, timeout=900, simulate=n_sim, depth=80,
+        g2 = ctx.tlc("Queue", None, name="sim", workers=1, timeout=900, simulate=n_sim, depth=80, heap="2g",
                      cfg_text=cfg(["r1", "r2", "r3"], [1, 2, 3], 3, gen=True, tail=GEN_TAIL, dims=dims))
         if not g2["ok"]:
             raise vlib.Infra("behaviour simulation failed: %s %s" % (g2["invariant"], g2["error"]))
@@ -304,15 +414,27 @@ def run_queue(ctx, replay, pid, mine, dims, opts):
         for k, b in enumerate(behs):       # harness-only dimension: every fourth message waits for a restart
             if k % 4 == 3:
                 b["cfg"]["restartFirst"] = True
-            # harness-only dimension: how the scripted failures are built (421 instead of 451; nested annotated errors)
-            b["cfg"]["errshape"] = ["", "421", "nested"][k % 3]
+            # harness-only dimension: how the scripted failures are built (421 instead of 451; nested annotated errors;
+            # an ordinary error annotated with WithFields + WithTemporary instead of an SMTPError)
+            b["cfg"]["errshape"] = ["", "421", "nested", "", "fields", "421", "nested"][k % 7]
+            # cfg.enh (a dimension of Queue.tla, explored by TLC where the check's dims switch it on: C18): the failures
+            # carry a basic reply code but NO enhanced status code.  Where the model run has EnhSet = {TRUE} (C01, whose
+            # predicates do not look at the report's status) every seventh behaviour gets it as a harness-side override.
+            if b["cfg"].get("enh", True) is False or k % 7 == 3:
+                b["cfg"]["enh"] = False
+                b["cfg"]["errshape"] = "noenh"
             # harness-only dimension: the recipients differ only by the letter case of the local part
             if k % 5 == 2 and len(set(b["cfg"]["list"])) >= 2:
                 b["cfg"]["caseVar"] = True
-            # harness-only dimension: SMTPUTF8 message whose recipients have non-ASCII local parts
+            # harness-only dimension: SMTPUTF8 message whose recipients have non-ASCII local parts, in one of the
+            # spelling classes of harness/queuecheck/forms_test.go (NFC / decomposed / compatibility characters /
+            # differing only by the case of a non-ASCII letter / composed next to decomposed), and whose sender may
+            # be a non-ASCII, decomposed or IDN address as well
             elif k % 5 == 4:
                 b["cfg"]["utf8"] = True
                 b["cfg"]["uniLocal"] = True
+                b["cfg"]["uniForm"] = ["", "nfd", "compat", "upper", "mixed"][(k // 5) % 5]
+                b["cfg"]["senderForm"] = ["", "uni", "nfd", "idn"][(k // 5) % 4]
     if opts.get("post") and not replay:
         opts["post"](ctx, behs)
     ctx.log("%d behaviours to replay" % len(behs))
@@ -320,8 +442,9 @@ def run_queue(ctx, replay, pid, mine, dims, opts):
     # ---- replay on the real queue --------------------------------------------
     binary = ctx.build_harness("queuecheck")
     # a stored artefact of variant (b) is replayed by variant (b) exactly as stored (its cfg holds the dimensions)
-    replay_real = bool(replay) and any(b.get("_stored_id", 0) >= 1000000 for b in behs)
-    events = [] if replay_real else ctx.run_shards(binary, behs)
+    is_series = bool(replay) and "series" in behs[0]      # a stored artefact of variant (c): the whole series is re-run
+    replay_real = bool(replay) and not is_series and any(b.get("_stored_id", 0) >= 1000000 for b in behs)
+    events = [] if (replay_real or is_series) else ctx.run_shards(binary, behs)
     by_id = {b["id"]: b for b in behs}
 
     # binding self-test: a corrupted and a truncated copy of an accepted trace
@@ -382,6 +505,9 @@ def run_queue(ctx, replay, pid, mine, dims, opts):
             nb["id"] = 1000000 + k + 1
             nb["cfg"]["utf8"] = bool(nb["cfg"].get("utf8", False)) or (k % 4 == 3)
             nb["cfg"]["errshape"] = "421" if k % 3 == 1 else ""
+            nb["cfg"]["enh"] = k % 5 != 4       # every fifth next hop does not do ENHANCEDSTATUSCODES (basic reply codes only)
+            nb["cfg"].pop("uniForm", None)
+            nb["cfg"].pop("senderForm", None)
             nb["cfg"]["uniLocal"] = (k % 8 == 3)
             # a dropped connection at the body stage happens in the middle of the transfer (8 MiB message)
             nb["cfg"]["midData"] = (k % 2 == 0) and any(h.get("a") == "TBody" and h.get("res") == "unspec" or
@@ -402,11 +528,37 @@ def run_queue(ctx, replay, pid, mine, dims, opts):
             raise vlib.Infra("variant (b): the spool of trace %s did not drain within the harness time-out "
                              "(not decided: files %s)" % (stuck[0]["t"], stuck[0]["files"]))
         events = events + ev2
+        ctx.log("variant (b): %d behaviours replayed" % len(rb))
         ctx.cov["real_forwarder_traces"] = len(rb)
+
+    # ---- variant (c): series of messages through one queue over one downstream that keeps state -----------
+    if opts.get("series", False):
+        if replay:
+            sers = [behs[0]["series"]] if "series" in behs[0] else []
+        else:
+            sers = build_series(ctx, behs + opts.get("_allb", []), thorough)
+        if sers:
+            ev3 = ctx.run_shards(binary, sers, test="TestReplaySeries", shards=8, name="series")
+            stuck = [e for e in ev3 if e["e"] == "Stuck"]
+            if stuck:
+                raise vlib.Infra("variant (c): the spool entry of trace %s did not drain within the harness time-out "
+                                 "(not decided: files %s)" % (stuck[0]["t"], stuck[0]["files"]))
+            for sr in sers:
+                for pos, m in enumerate(sr["members"]):
+                    by_id[m["id"]] = {"id": m["id"], "series": sr, "pos": pos, "cfg": m["cfg"], "hist": m["hist"]}
+            if replay:
+                events = []        # a stored series is replayed as the series only
+            events = events + ev3
+            ctx.log("variant (c): %d series replayed" % len(sers))
+            ctx.cov["series"] = {"series": len(sers), "messages": sum(len(x["members"]) for x in sers),
+                                 "remote": sum(1 for x in sers if x["cfg"]["fwd"] == "remote"),
+                                 "transactions_on_a_reused_connection":
+                                     sum(1 for e in ev3 if e["e"] == "TStart" and e.get("txn", 1) > 1)}
 
     verdicts, by_t = ctx.validate("QueueTrace", None, events, keep=KEEP,
                                   cfg_text=TRACE_CFG % dict(devs=""))
 
+    ctx.log("%d traces validated by TLC" % len(verdicts))
     ok = drift = 0
     preds = {}
     for t, recs in sorted(verdicts.items()):
@@ -433,7 +585,9 @@ def run_queue(ctx, replay, pid, mine, dims, opts):
             ok += 1
         else:
             drift += 1
-            print("DRIFT property=" + pid + " trace=%d first-unexplained-seq=%s" % (t, recs[0]["driftAt"]))
+            print("DRIFT property=" + pid + " trace=%d first-unexplained-seq=%s events=%s" % (
+                t, recs[0]["driftAt"], ",".join("%s:%s" % (e["seq"], e["e"] + ("=" + e["res"] if "res" in e else ""))
+                                                for e in by_t.get(t, [])[:40])))
     if selftest:
         ctx.cov["binding_selftest"] = "corrupted-field and dropped-event traces rejected"
     ctx.cov["traces_validated_against_impl"] = ok
@@ -462,7 +616,9 @@ META = {
             "atomic and per-recipient targets, bounce on/off, null sender) of Queue.tla inside the bound and checks "
             "the C01 predicates in every state; the same predicates are evaluated by TLC over traces recorded from "
             "the real queue driven with TLC-generated plans (sampled in quick, exhaustive for <=2 recipients / "
-            "max_tries<=2 plus 6000 simulated plans in thorough).",
+            "max_tries<=2 plus 6000 simulated plans in thorough); plans are also replayed over the real SMTP/LMTP/remote-MX "
+            "clients against a scripted next hop, and as series of messages through one queue whose downstream (connection "
+            "pool of the remote-MX target) keeps state between them.",
     "note": "Downstream and bounce targets are scripted (variant (a) of DESIGN 5/C01); time is the fake clock of a "
             "synctest bubble; trusted: TLC, the harness, Go toolchain.",
     "design_ref": "DESIGN.md section 5 C01",
